@@ -24,7 +24,9 @@ BASE_D = ["INT", "BOOL", "DOUBLE", "CLOCK", "DIFF", "INVARIANT", "INVARIANT_WR",
 
 GATES = {"guard": "is_guard", "invariant": "isInvariantWR"}
 # the atomic clock comparisons of C10's quantifier: clock bound, clock difference bound, clock against clock
-ATOM_PAIRS = {("CLOCK", "CLOCK"), ("CLOCK", "INT"), ("INT", "CLOCK"), ("DIFF", "INT"), ("INT", "DIFF")}
+# (bounds may be integers or doubles: `x != 2.5` is as much a non-convex clock comparison as `x != 3`; E10-1)
+ATOM_PAIRS = {("CLOCK", "CLOCK"), ("CLOCK", "INT"), ("INT", "CLOCK"), ("DIFF", "INT"), ("INT", "DIFF"),
+              ("CLOCK", "DOUBLE"), ("DOUBLE", "CLOCK"), ("DIFF", "DOUBLE"), ("DOUBLE", "DIFF")}
 BINARY = ["AND", "OR", "XOR", "LT", "LE", "GE", "GT", "EQ", "NEQ"]
 
 
@@ -159,7 +161,7 @@ def run(chk, F):
                                 # the result may go under !, ||, xor, exists: a comparison that involves a clock
                                 # must not be typed as a plain boolean.  Armed for the atoms C10 quantifies over
                                 # (clock bound, clock difference bound, clock vs clock); the remaining rows
-                                # (difference vs difference, clock vs double/bool: the SMC reading of clocks as
+                                # (difference vs difference, clock vs bool: the SMC reading of clocks as
                                 # numbers) are outside the property's vocabulary and are printed as notes
                                 if (a, b) in ATOM_PAIRS:
                                     ok = False
